@@ -130,3 +130,56 @@ package proxy
 //@   props C20
 //@   firstdefer log.CapturePanic
 //@   ensures @balanced: s.net == old(s.net)
+
+// ---------------------------------------------------------------------------------------------
+// C07: LCM mode presents one consistent shard space (shard remap, stream metadata, DescribeCluster).
+// ---------------------------------------------------------------------------------------------
+
+// Total in the shard id: for every int32 sourceShardID there is no panic (C20); in 1..LCM the value is the
+// single real shard (s-1) mod c + 1, which lies in 1..c.
+//@ contract mapShardIDUnique
+//@   props C07 C20
+//@   requires 1 <= targetShardCount && targetShardCount <= sourceShardCount && sourceShardCount % targetShardCount == 0
+//@   ensures  @value: 1 <= sourceShardID && sourceShardID <= sourceShardCount ==> result == (sourceShardID - 1) % targetShardCount + 1
+//@   ensures  @range: 1 <= sourceShardID && sourceShardID <= sourceShardCount ==> 1 <= result && result <= targetShardCount
+//@   assigns  nothing
+
+//@ extern quiet newStreamForwarder
+//@   trusted constructor: stores its arguments in a fresh StreamForwarder (no effect on the caller's state)
+//@ extern quiet (*StreamForwarder).Run
+//@ extern quiet streamIntraProxyRouting
+//@ extern quiet streamRouting
+//@ extern pure common.IsIntraProxy
+
+// LCM branch: whenever the forwarder is created, the outgoing stream metadata names the incoming LCM shard s
+// as the initiator's (client) shard, the remapped real shard as the server shard, and keeps both cluster ids.
+//@ contract handleStream
+//@   props C07 C20
+//@   requires targetMetadata != nil
+//@   requires shardCountConfig.Mode == config.ShardCountLCM ==>
+//@            1 <= lcmParameters.TargetShardCount && lcmParameters.TargetShardCount <= lcmParameters.LCM && lcmParameters.LCM % lcmParameters.TargetShardCount == 0
+//@   callpre newStreamForwarder: @client_shard: shardCountConfig.Mode == config.ShardCountLCM ==>
+//@            len(targetMetadata[strlower(history.MetadataKeyClientShardID)]) == 1 &&
+//@            targetMetadata[strlower(history.MetadataKeyClientShardID)][0] == strconv.Itoa(int(sourceClusterShardID.ShardID))
+//@   callpre newStreamForwarder: @server_shard: shardCountConfig.Mode == config.ShardCountLCM && 1 <= sourceClusterShardID.ShardID && sourceClusterShardID.ShardID <= lcmParameters.LCM ==>
+//@            len(targetMetadata[strlower(history.MetadataKeyServerShardID)]) == 1 &&
+//@            targetMetadata[strlower(history.MetadataKeyServerShardID)][0] == strconv.Itoa(int((sourceClusterShardID.ShardID - 1) % lcmParameters.TargetShardCount + 1))
+//@   callpre newStreamForwarder: @client_cluster: shardCountConfig.Mode == config.ShardCountLCM ==>
+//@            len(targetMetadata[strlower(history.MetadataKeyClientClusterID)]) == 1 &&
+//@            targetMetadata[strlower(history.MetadataKeyClientClusterID)][0] == strconv.Itoa(int(targetClusterShardID.ClusterID))
+//@   callpre newStreamForwarder: @server_cluster: shardCountConfig.Mode == config.ShardCountLCM ==>
+//@            len(targetMetadata[strlower(history.MetadataKeyServerClusterID)]) == 1 &&
+//@            targetMetadata[strlower(history.MetadataKeyServerClusterID)][0] == strconv.Itoa(int(sourceClusterShardID.ClusterID))
+//@   callpre newStreamForwarder: @ids_passed: $sourceClusterShardID == sourceClusterShardID && $targetClusterShardID == targetClusterShardID && $targetMetadata == targetMetadata
+
+//@ extern pure common.IsRequestTranslationDisabled
+//@ extern quiet (adminservice.AdminServiceClient).DescribeCluster
+//@   trusted gRPC client call: no effect on the proxy's own state; unconstrained response
+//@ extern quiet (logging.LoggerProvider).Get
+
+// In LCM mode the peer is told the least common multiple as the history shard count (unless translation is
+// disabled for the request or the upstream call failed).
+//@ contract (*adminServiceProxyServer).DescribeCluster
+//@   props C07
+//@   ensures @lcm_reported: result1 == nil && result0 != nil && s.shardCountConfig.Mode == config.ShardCountLCM &&
+//@            !common.IsRequestTranslationDisabled(ctx) ==> result0.HistoryShardCount == s.lcmParameters.LCM
